@@ -6,6 +6,7 @@
 //	-stage traversal  traversal-shaped request targets and Destinations in a sandbox with canaries (C03)
 //	-stage cond       the If-Match / If-None-Match table (C04)
 //	-stage putfault   PUT bodies that break off after k bytes (C02)
+//	-stage putsteps   the states an upload passes through, read by read of the body (C02, C01)
 //
 // Case line: (root ..) (tree <before>) (req ..) (drv ..) (obs ..) (after <after>)
 package main
@@ -21,6 +22,7 @@ import (
 	"path"
 	"path/filepath"
 	"runtime"
+	"sort"
 	"strings"
 	"sync"
 
@@ -551,21 +553,88 @@ func stageCond(sink *hx.Sink) {
 
 func stagePutFault(sink *hx.Sink) {
 	sizes := []int{0, 1, 5, 32767, 32768, 32769, 100000}
+	type tgt struct {
+		name string
+		tree *davx.Node
+		path string
+	}
+	mk := func(target string) tgt {
+		root := davx.Dir("keep", davx.File("keep me"))
+		p := "/t"
+		switch target {
+		case "file":
+			root.Put("t", davx.File("old content that must survive"))
+		case "dir":
+			root.Put("t", davx.Dir("m", davx.File("member")))
+		case "noparent":
+			p = "/nodir/t"
+		case "underfile":
+			p = "/keep/t"
+		case "nested":
+			root.Put("sub", davx.Dir("t", davx.File("old nested")))
+			p = "/sub/t"
+		}
+		return tgt{target, davx.Dir("root", root), p}
+	}
+	var targets []tgt
+	for _, t := range []string{"absent", "file", "dir", "noparent", "underfile", "nested"} {
+		targets = append(targets, mk(t))
+	}
+
+	// Where does an upload keep its bytes while the body is being read? Probe the
+	// real handler, then plant an unrelated file under every name seen (and under
+	// the usual derived names): an upload, failing or not, must not touch it.
+	probe := davx.NewSandbox(workerDir(99), []string{"root"})
+	var planted []tgt
+	for _, t := range targets {
+		if t.name == "dir" || t.name == "noparent" || t.name == "underfile" {
+			continue
+		}
+		seen := map[string]bool{}
+		for i := 0; i < 2; i++ {
+			if err := probe.Reset(t.tree); err != nil {
+				fmt.Fprintln(os.Stderr, "dav: reset:", err)
+				os.Exit(2)
+			}
+			r := davx.NewReq("PUT", t.path)
+			r.Body = "probe"
+			for _, n := range probe.ProbeTemps(r, davx.Snapshot(probe.Dir)) {
+				seen[n] = true
+			}
+		}
+		dir, base := path.Split(t.path) // "/", "t" or "/sub/", "t"
+		for _, n := range []string{base + ".part", base + ".tmp", base + "~", "." + base + ".tmp", base + ".new", base + ".bak", "." + base + ".swp", base + ".upload", ".webdav-upload-0", "tmp"} {
+			seen[path.Join("root", dir, n)] = true
+		}
+		var names []string
+		for n := range seen {
+			names = append(names, n)
+		}
+		sort.Strings(names)
+		for _, n := range names {
+			tree := t.tree.Clone()
+			cur := tree
+			segs := strings.Split(n, "/")
+			ok := true
+			for _, sg := range segs[:len(segs)-1] {
+				if cur.Kids[sg] == nil || !cur.Kids[sg].IsDir {
+					ok = false
+					break
+				}
+				cur = cur.Kids[sg]
+			}
+			if !ok || cur.Kids[segs[len(segs)-1]] != nil {
+				continue
+			}
+			cur.Put(segs[len(segs)-1], davx.File("an unrelated stored resource"))
+			planted = append(planted, tgt{t.name + "+" + n, tree, t.path})
+		}
+	}
+	os.RemoveAll(filepath.Dir(probe.Dir))
+
 	jobs := make(chan job, 64)
 	go func() {
-		for _, target := range []string{"absent", "file", "dir", "noparent", "underfile"} {
-			root := davx.Dir("keep", davx.File("keep me"))
-			p := "/t"
-			switch target {
-			case "file":
-				root.Put("t", davx.File("old content that must survive"))
-			case "dir":
-				root.Put("t", davx.Dir("m", davx.File("member")))
-			case "noparent":
-				p = "/nodir/t"
-			case "underfile":
-				p = "/keep/t"
-			}
+		for _, t := range targets {
 			var reqs []davx.Req
 			for _, sz := range sizes {
 				body := strings.Repeat("Z", sz)
@@ -574,23 +643,222 @@ func stagePutFault(sink *hx.Sink) {
 					if k > sz || (k < 0 && k != -1) {
 						continue
 					}
-					r := davx.NewReq("PUT", p)
+					r := davx.NewReq("PUT", t.path)
 					r.Body = body
+					r.FailAfter = k
+					reqs = append(reqs, r)
+					// the same offsets as points at which the request context is cancelled
+					// (the body itself can be read to its end, or fails later)
+					if k >= 0 {
+						c := davx.NewReq("PUT", t.path)
+						c.Body = body
+						c.Cancel = k
+						reqs = append(reqs, c)
+						for _, cond := range []string{"*", `"nope"`} {
+							cc := c
+							cc.IfNoneMatch = cond
+							reqs = append(reqs, cc)
+							cm := c
+							cm.IfMatch = cond
+							reqs = append(reqs, cm)
+						}
+						if k+1 <= sz {
+							cf := c
+							cf.FailAfter = k + 1
+							reqs = append(reqs, cf)
+						}
+					}
+				}
+			}
+			// every other method with a context that is already cancelled
+			for _, m := range []string{"GET", "HEAD", "OPTIONS", "PROPFIND", "DELETE", "MKCOL", "COPY", "MOVE"} {
+				for _, p := range []string{t.path, "/keep", "/new"} {
+					r := davx.NewReq(m, p)
+					r.Cancel = 0
+					if m == "COPY" || m == "MOVE" {
+						for _, d := range []string{"/keep", "/dst", t.path} {
+							for _, ow := range []string{"", "F"} {
+								rr := r
+								rr.Dest = d
+								rr.Overwrite = ow
+								reqs = append(reqs, rr)
+							}
+						}
+					} else {
+						reqs = append(reqs, r)
+					}
+				}
+			}
+			jobs <- job{tree: t.tree, reqs: reqs}
+		}
+		for _, t := range planted {
+			var reqs []davx.Req
+			for _, sz := range []int{0, 5, 40000} {
+				for _, k := range []int{-1, 0, 3, sz} {
+					if k > sz {
+						continue
+					}
+					r := davx.NewReq("PUT", t.path)
+					r.Body = strings.Repeat("Z", sz)
 					r.FailAfter = k
 					reqs = append(reqs, r)
 				}
 			}
-			jobs <- job{tree: davx.Dir("root", root), reqs: reqs}
+			jobs <- job{tree: t.tree, reqs: reqs}
 		}
 		close(jobs)
 	}()
 	runJobs(jobs, sink, []string{"root"})
 }
 
+// ---- the upload, OS call by OS call (C02, C01)
+
+// stepsLine renders one observed upload:
+// (usteps (dir seg..) tmp name (chunks c..) fails status (tree before) (seen s..) (final after) <req for replay>)
+func stepsLine(sb *davx.Sandbox, before *davx.Node, r davx.Req, fails bool, o davx.Obs, after *davx.Node, st davx.Steps) string {
+	segs := append([]string{}, sb.RootRel...)
+	for _, sg := range strings.Split(strings.Trim(path.Clean(r.Path), "/"), "/") {
+		if sg != "" {
+			segs = append(segs, sg)
+		}
+	}
+	dir, name := segs[:len(segs)-1], segs[len(segs)-1]
+	tmp := "-"
+	if len(st.Temps) == 1 {
+		t := strings.Split(st.Temps[0], "/")
+		if strings.Join(t[:len(t)-1], "/") == strings.Join(dir, "/") {
+			tmp = hx.S(t[len(t)-1])
+		}
+	}
+	ds := []string{"dir"}
+	for _, d := range dir {
+		ds = append(ds, hx.S(d))
+	}
+	cs := []string{"chunks"}
+	for _, c := range st.Given {
+		cs = append(cs, hx.S(c))
+	}
+	ss := []string{"seen"}
+	for _, n := range st.Seen {
+		ss = append(ss, n.Sx())
+	}
+	status := "panic"
+	if !o.Panic {
+		status = hx.I(int64(o.Status))
+	}
+	return strings.Join([]string{hx.L("usteps", hx.L(ds...), tmp, hx.S(name), hx.L(cs...), hx.B(fails), status),
+		hx.L("tree", before.Sx()), hx.L(ss...), hx.L("after", after.Sx()), r.Sx(), sb.RootSx()}, " ")
+}
+
+func stagePutSteps(sink *hx.Sink) {
+	rng := hx.NewRand(hx.Seed())
+	type tcase struct {
+		tree *davx.Node
+		path string
+	}
+	mk := func(target string, extra ...string) tcase {
+		root := davx.Dir("keep", davx.File("keep me"))
+		p := "/t"
+		switch target {
+		case "file":
+			root.Put("t", davx.File("old content that must survive"))
+		case "nested":
+			root.Put("sub", davx.Dir("t", davx.File("old nested"), "other", davx.File("o")))
+			p = "/sub/t"
+		case "nestedabsent":
+			root.Put("sub", davx.Dir())
+			p = "/sub/t"
+		}
+		for _, e := range extra {
+			root.Put(e, davx.File("an unrelated stored resource"))
+		}
+		return tcase{davx.Dir("root", root, "beside", davx.File("outside the root")), p}
+	}
+	var cases []tcase
+	for _, t := range []string{"absent", "file", "nested", "nestedabsent"} {
+		cases = append(cases, mk(t))
+	}
+	// names an upload might use for its temporary file, taken: found by probing, plus the usual ones
+	probe := davx.NewSandbox(workerDir(98), []string{"root"})
+	seen := map[string]bool{"t.part": true, "t.tmp": true, ".t.tmp": true, "t~": true, ".webdav-upload-0": true}
+	for i := 0; i < 2; i++ {
+		c := mk("file")
+		probe.Reset(c.tree)
+		r := davx.NewReq("PUT", c.path)
+		r.Body = "probe"
+		for _, n := range probe.ProbeTemps(r, davx.Snapshot(probe.Dir)) {
+			if strings.HasPrefix(n, "root/") && !strings.Contains(n[5:], "/") {
+				seen[n[5:]] = true
+			}
+		}
+	}
+	os.RemoveAll(filepath.Dir(probe.Dir))
+	var names []string
+	for n := range seen {
+		names = append(names, n)
+	}
+	sort.Strings(names)
+	for _, n := range names {
+		cases = append(cases, mk("file", n), mk("absent", n))
+	}
+	chunkings := [][]string{{}, {"a"}, {"ab", "c"}, {"x", "", "y"}, {strings.Repeat("Z", 32768), "1"}, {strings.Repeat("Q", 40000)},
+		{strings.Repeat("a", 5), strings.Repeat("b", 32769), strings.Repeat("c", 7)}}
+	n := 40
+	if hx.Tier() == "thorough" {
+		n = 400
+	}
+	for i := 0; i < n; i++ {
+		var c []string
+		for k := rng.Intn(6); k > 0; k-- {
+			c = append(c, strings.Repeat(string(rune('a'+rng.Intn(26))), rng.Intn(9)*rng.Intn(9)*rng.Intn(600)+rng.Intn(3)))
+		}
+		chunkings = append(chunkings, c)
+	}
+	type sjob struct {
+		c      tcase
+		chunks []string
+		fails  bool
+	}
+	jobs := make(chan sjob, 64)
+	go func() {
+		for _, c := range cases {
+			for _, ch := range chunkings {
+				jobs <- sjob{c, ch, false}
+				jobs <- sjob{c, ch, true}
+			}
+		}
+		close(jobs)
+	}()
+	var wg sync.WaitGroup
+	for w := 0; w < runtime.NumCPU(); w++ {
+		wg.Add(1)
+		go func(w int) {
+			defer wg.Done()
+			sb := davx.NewSandbox(workerDir(w), []string{"root"})
+			for j := range jobs {
+				if err := sb.Reset(j.c.tree); err != nil {
+					fmt.Fprintln(os.Stderr, "dav: reset:", err)
+					os.Exit(2)
+				}
+				before := davx.Snapshot(sb.Dir)
+				r := davx.NewReq("PUT", j.c.path)
+				_, o, after, st := sb.DoSteps(r, j.chunks, j.fails, before)
+				r.Body = strings.Join(j.chunks, "\x00|") // replay: the pieces (never contain NUL)
+				if j.fails {
+					r.FailAfter = len(strings.Join(j.chunks, ""))
+				}
+				sink.Put(stepsLine(sb, before, r, j.fails, o, after, st))
+			}
+			os.RemoveAll(filepath.Dir(sb.Dir))
+		}(w)
+	}
+	wg.Wait()
+}
+
 func main() {
 	out := flag.String("out", "", "output file")
 	replay := flag.String("replay", "", "file of case lines to re-run")
-	stage := flag.String("stage", "universe", "universe|history|paths|traversal|cond|putfault")
+	stage := flag.String("stage", "universe", "universe|history|paths|traversal|cond|putfault|putsteps")
 	flag.Parse()
 	scratch = os.Getenv("VERIF_SCRATCH")
 	if scratch == "" {
@@ -618,6 +886,25 @@ func main() {
 					o = hx.S(p)
 				}
 				sink.Put(hx.L("lpath", hx.S(root), hx.S(s), o))
+			case "usteps":
+				// (usteps ..) (tree t) (seen ..) (after ..) (req ..) (root ..)
+				var rootRel []string
+				for _, a := range items[5].Args() {
+					rootRel = append(rootRel, a.Str())
+				}
+				sb = davx.NewSandbox(workerDir(0), rootRel)
+				sb.Reset(davx.ParseNode(items[1].List[1]))
+				before := davx.Snapshot(sb.Dir)
+				r := davx.ParseReq(items[4])
+				chunks := strings.Split(r.Body, "\x00|")
+				if r.Body == "" {
+					chunks = nil
+				}
+				fails := r.FailAfter >= 0
+				rr := r
+				rr.FailAfter = -1
+				_, o, after, st := sb.DoSteps(rr, chunks, fails, before)
+				sink.Put(stepsLine(sb, before, r, fails, o, after, st))
 			case "root":
 				var rootRel []string
 				for _, a := range items[0].Args() {
@@ -649,6 +936,8 @@ func main() {
 		stageCond(sink)
 	case "putfault":
 		stagePutFault(sink)
+	case "putsteps":
+		stagePutSteps(sink)
 	default:
 		fmt.Fprintln(os.Stderr, "unknown stage")
 		os.Exit(2)
